@@ -1139,7 +1139,7 @@ var stage2DiagRe = regexp.MustCompile(`case_(\d+)\.go:(\d+)(?::(\d+))?: (.*)$`)
 
 // runStage2 compiles every expression in its own file of one program (compile errors are attributed by
 // file name, the offending files removed and the build retried), runs it, and returns the built objects.
-func (c *corpus) runStage2(cases []stage2Case) (resps map[string]stage2Resp, broken map[string]string, err error) {
+func (c *corpus) runStage2(cases []stage2Case) (resps map[string]stage2Resp, broken map[string][]string, err error) {
 	root := filepath.Join(c.dir, "gomod")
 	dir := filepath.Join(root, "cmd", "stage2")
 	_ = os.RemoveAll(dir)
@@ -1151,7 +1151,7 @@ func (c *corpus) runStage2(cases []stage2Case) (resps map[string]stage2Resp, bro
 		_ = os.WriteFile(filepath.Join(dir, fmt.Sprintf("case_%06d.go", i)), []byte(src), 0o644)
 		fileOf[i] = cse.ID
 	}
-	broken = map[string]string{}
+	broken = map[string][]string{}
 	bin := filepath.Join(c.dir, "stage2bin")
 	built := false
 	for attempt := 0; attempt < 6 && !built; attempt++ {
@@ -1173,9 +1173,11 @@ func (c *corpus) runStage2(cases []stage2Case) (resps map[string]stage2Resp, bro
 			fmt.Sscanf(m[1], "%d", &i)
 			id := fileOf[i]
 			if _, seen := broken[id]; !seen {
-				broken[id] = m[4]
 				_ = os.Remove(filepath.Join(dir, fmt.Sprintf("case_%06d.go", i)))
 				removed++
+			}
+			if len(broken[id]) < 8 {
+				broken[id] = append(broken[id], m[4]) // every diagnostic of the case: one defect must not hide another
 			}
 		}
 		if removed == 0 {
